@@ -18,7 +18,7 @@ PLAN = {
     "C09": [("ro", "dev"), ("reopen", "dev")],
     "C10": [("core", "dev"), ("shape", "dev"), ("fit", "dev"), ("minseg", "dev"), ("minseg", "release")],
     "C11": [("core", "dev"), ("ctl", "dev"), ("sizes", "dev")],
-    "C16": [("layout", "dev"), ("core", "dev"), ("reopen", "dev"), ("ctl", "dev")],
+    "C16": [("layout", "dev"), ("core", "dev"), ("reopen", "dev"), ("ctl", "dev"), ("clone", "dev")],
     "C17": [("ctl", "dev"), ("ctl", "release")],
     "C18": [("ctl", "dev"), ("ro", "dev"), ("clone", "dev")],
     "C20": [("core", "dev"), ("ctl", "dev"), ("ro", "dev"), ("fit", "dev"), ("minseg", "dev"), ("minseg", "release")],
